@@ -1,0 +1,52 @@
+//go:build verif
+
+// Machine-checked contracts for this package (guard: build tag `verif`; this file contains comments only).
+// Read by /verif/bin/govc: each `//@ unit` section is one verification unit (the functions matching `filter`,
+// verified against the contracts of the section; callees are used through their contracts only).
+
+package basicauth
+
+//@ unit htpasswd_lock props=C08 filter=`GetHtpasswdMatcher$`
+//@ func GetHtpasswdMatcher
+//@   ensures [lock_balance] held(htpasswordsMu) == old(held(htpasswordsMu))
+
+//@ unit basicauth_handler props=C03,C12,C19 filter=`BasicAuth\)\.ServeHTTP$`
+//@ ghost calledNext int
+
+//@ extern invoke:(github.com/tmpim/casket/caskethttp/httpserver.Handler).ServeHTTP
+//@   modifies ghost:calledNext
+//@   ensures calledNext == old(calledNext) + 1
+
+//@ extern (github.com/tmpim/casket/caskethttp/httpserver.Path).Matches
+//@   pure
+
+//@ extern (*net/http.Request).BasicAuth
+//@   pure reads Request
+
+//@ extern (*net/http.Request).WithContext
+//@   ensures result != nil && result.URL == r.URL && result.Method == r.Method
+//@   ensures ret(0, result.BasicAuth()) == ret(0, r.BasicAuth()) && ret(1, result.BasicAuth()) == ret(1, r.BasicAuth()) && ret(2, result.BasicAuth()) == ret(2, r.BasicAuth())
+
+//@ define M(i int, j int) bool = httpserver.Path(old(r.URL.Path)).Matches(a.Rules[i].Resources[j])
+//@ define X(i int, x int) bool = httpserver.Path(old(r.URL.Path)).Matches(a.Rules[i].Exclude[x])
+//@ define NE(i int) bool = forall(x, 0, len(a.Rules[i].Exclude), !X(i, x))
+//@ define prot(i int) bool = exists(j, 0, len(a.Rules[i].Resources), M(i, j)) && NE(i)
+//@ define okCred(i int) bool = ret(2, old(r).BasicAuth()) && ret(0, old(r).BasicAuth()) == a.Rules[i].Username && a.Rules[i].Password(ret(1, old(r).BasicAuth()))
+//@ define stable() bool = calledNext == old(calledNext) && r != nil && r.URL == old(r.URL) && r.URL != nil && r.URL.Path == old(r.URL.Path) && ret(0, r.BasicAuth()) == ret(0, old(r).BasicAuth()) && ret(1, r.BasicAuth()) == ret(1, old(r).BasicAuth()) && ret(2, r.BasicAuth()) == ret(2, old(r).BasicAuth())
+
+//@ func (BasicAuth).ServeHTTP
+//@   requires r != nil && r.URL != nil
+//@   ensures [deny] (old(r.Method) != "OPTIONS" && exists(i, 0, len(a.Rules), prot(i)) && !exists(i, 0, len(a.Rules), prot(i) && okCred(i))) ==> (result0 == 401 && calledNext == old(calledNext))
+//@   ensures [pass] !(old(r.Method) != "OPTIONS" && exists(i, 0, len(a.Rules), prot(i)) && !exists(i, 0, len(a.Rules), prot(i) && okCred(i))) ==> calledNext == old(calledNext) + 1
+//@   loop 1 invariant 0 <= #i && #i <= len(a.Rules) && stable()
+//@   loop 1 invariant protected == exists(i, 0, #i, prot(i))
+//@   loop 1 invariant isAuthenticated == exists(i, 0, #i, prot(i) && okCred(i))
+//@   loop 2 invariant 0 <= #i2 && #i2 <= len(rule.Resources) && 1 <= #i1 && #i1 <= len(a.Rules) && rule == a.Rules[#i1 - 1] && stable()
+//@   loop 2 invariant exists(j, 0, #i2, M(#i1 - 1, j)) ==> NE(#i1 - 1)
+//@   loop 2 invariant protected == (exists(i, 0, #i1 - 1, prot(i)) || exists(j, 0, #i2, M(#i1 - 1, j)))
+//@   loop 2 invariant isAuthenticated == (exists(i, 0, #i1 - 1, prot(i) && okCred(i)) || (exists(j, 0, #i2, M(#i1 - 1, j)) && okCred(#i1 - 1)))
+//@   loop 3 invariant 0 <= #i3 && #i3 <= len(rule.Exclude) && 1 <= #i2 && #i2 <= len(rule.Resources) && 1 <= #i1 && #i1 <= len(a.Rules) && rule == a.Rules[#i1 - 1] && stable()
+//@   loop 3 invariant M(#i1 - 1, #i2 - 1) && forall(x, 0, #i3, !X(#i1 - 1, x))
+//@   loop 3 invariant exists(j, 0, #i2 - 1, M(#i1 - 1, j)) ==> NE(#i1 - 1)
+//@   loop 3 invariant protected == (exists(i, 0, #i1 - 1, prot(i)) || exists(j, 0, #i2 - 1, M(#i1 - 1, j)))
+//@   loop 3 invariant isAuthenticated == (exists(i, 0, #i1 - 1, prot(i) && okCred(i)) || (exists(j, 0, #i2 - 1, M(#i1 - 1, j)) && okCred(#i1 - 1)))
